@@ -397,19 +397,36 @@ def make_jobs(ctx, positions, variant, directed=None):
         trs = S.track(a, variant)
         plan.append({"base": base, "prior": prior, "pp": S.pos_cmd(pp), "pgo": "depth 6", "a": a, "b": b, "tr": trs,
                      "classes": [classes_of(t, variant) for t in trs], "flavour": "tablebase", "k": len(prior)})
-    def add_tb_pressure(hash_mb, probe_go, extra_prior=None):
-        """tablebase resident before Clear Hash, then a probe big enough to put the table under
-        replacement pressure: everything updateTB() changed in the table geometry (usedSize and the
-        index parameters derived from it) must be back, otherwise buckets collide differently"""
+    pressure = []
+    ppath = os.path.join(VERIF, "corpus", "c14_pressure_probes.txt")
+    if os.path.exists(ppath):
+        for l in open(ppath):
+            l = l.strip()
+            if l and not l.startswith("#"):
+                fen, go = l.split("|")
+                pressure.append((fen.strip(), go.strip()))
+
+    def add_tb_pressure(hash_mb, scale=1, probe_go=None, extra_prior=None):
+        """tablebase resident before Clear Hash, then a probe whose output is known to depend on the
+        size of the table (corpus/c14_pressure_probes.txt): everything updateTB() changed in the table
+        geometry (usedSize and the index parameters derived from it) must be back, otherwise buckets
+        collide differently"""
         base = {"Hash": hash_mb}
-        busy = [p for p in positions if sum(c.isalpha() for c in p[0].split()[0]) >= 26] or positions
-        pp = rng.choice(busy)
+        if pressure:
+            fen, go = rng.choice(pressure)
+            pp = (fen, "")
+            if probe_go is None:
+                probe_go = "nodes %d" % (int(go.split()[1]) * scale)
+        else:
+            busy = [p for p in positions if sum(c.isalpha() for c in p[0].split()[0]) >= 26] or positions
+            pp = rng.choice(busy)
+            probe_go = probe_go or "nodes 600000"
         small = {"depth": 3, "nodes": 500, "ms": 10}
         prior = S.gen_prior(rng, positions, pp, rng.randint(0, 2), base, "plain", small)
         if extra_prior is not None:
             prior += extra_prior
         else:
-            prior.append({"k": "go", "pos": rng.choice(S.TB_POSITIONS), "go": "infinite", "mode": "stop_after_info", "wait": 0})
+            prior.append({"k": "go", "pos": rng.choice(S.TB_POSITIONS[:2]), "go": "infinite", "mode": "stop_after_info", "wait": 0})
         lim = [st for st in S.gen_prior(rng, positions, pp, rng.randint(0, 2), base, "plain", small)
                if "depth" in st["go"] or "nodes" in st["go"]]
         prior += lim
@@ -419,8 +436,8 @@ def make_jobs(ctx, positions, variant, directed=None):
                      "classes": [classes_of(t, variant) for t in trs], "flavour": "tablebase-pressure", "k": len(prior)})
     if directed is not None:
         # finder stage after a broken correspondence: sessions derived from the shrunk op sequence
-        for hash_mb, pgo in (("8", "nodes 400000"), ("8", "depth 10 nodes 600000"), (directed["hash"], "nodes 700000")):
-            add_tb_pressure(hash_mb if int(hash_mb) >= 8 or not directed["tb"] else "8", pgo, extra_prior=list(directed["prior"]))
+        for hash_mb, scale, pgo in (("8", 3, None), ("8", 1, "depth 10 nodes 600000"), (directed["hash"], 5, None)):
+            add_tb_pressure(hash_mb if int(hash_mb) >= 8 or not directed["tb"] else "8", scale, pgo, extra_prior=list(directed["prior"]))
         return plan
     H = lambda: {"Hash": rng.choice(["1", "1", "2", "4", "16"])}
     if quick:
@@ -444,8 +461,8 @@ def make_jobs(ctx, positions, variant, directed=None):
             add(rng.randint(1, 40), "options", base)
         add(rng.randint(2, 6), "options0", {"Hash": "16"}, want="clean")
         add_tb()
-        add_tb_pressure("8", "nodes 400000")
-        add_tb_pressure("8", "nodes 250000")
+        add_tb_pressure("8")
+        add_tb_pressure("8")
     else:
         n = 500
         for i in range(n):
@@ -467,7 +484,7 @@ def make_jobs(ctx, positions, variant, directed=None):
             add(max(k, 0), fl, base, want=("clean" if i % 3 == 0 and "Contempt" not in base else None))
             if i % 25 == 0:
                 add_tb()
-                add_tb_pressure(rng.choice(["8", "16"]), rng.choice(["nodes 400000", "depth 10 nodes 1500000", "nodes 900000"]))
+                add_tb_pressure(rng.choice(["8", "8", "16"]), rng.choice([1, 3, 6]))
     return plan
 
 
@@ -499,9 +516,57 @@ def witness_jobs(variant, positions):
     return jobs
 
 
-def end_to_end(ctx, exe, positions, variant):
+def derive_directed(ops, rng, positions):
+    """Turn a (shrunk) op sequence on which model and implementation disagree into the prior part of
+    a UCI session that drives the real engine through the same operations: option changes, Clear
+    Hash / ucinewgame, real searches, and for updateTB ops a search that makes the engine call
+    updateTB the same way (go infinite on the tablebase root, stopped only after the tablebase is
+    there).  Low-level table writes become one ordinary search."""
+    hash_mb, tb, prior, generic = "16", False, [], False
+    for op in ops:
+        t = op.split()
+        if op.startswith("UCI setoption name Clear Hash"):
+            prior.append({"k": "clear"})
+        elif op.startswith("UCI ucinewgame"):
+            prior.append({"k": "newgame"})
+        elif op.startswith("UCI setoption name ") and " value " in op:
+            name = op[len("UCI setoption name "):op.index(" value ")]
+            val = op[op.index(" value ") + 7:]
+            if name == "Hash":
+                hash_mb = val
+            elif name in S.OPTIONS:
+                prior.append({"k": "opt", "name": name, "value": val})
+        elif t[0] in ("UPDTB", "UPDTBA"):
+            fen = op[op.index("|") + 1:].strip()
+            tb = True
+            if t[0] == "UPDTBA":
+                prior.append({"k": "go", "pos": "fen " + fen, "go": "infinite", "mode": "stop", "wait": 1})
+            elif int(t[2]) >= 0 and (int(t[1]) < 0 or int(t[1]) >= 3000):
+                prior.append({"k": "go", "pos": "fen " + fen, "go": "infinite", "mode": "stop_after_info", "wait": 0})
+            else:
+                prior.append({"k": "go", "pos": "fen " + fen, "go": "movetime %d" % max(1, min(int(t[1]), 50) if int(t[1]) >= 0 else 5), "mode": "wait", "wait": 0})
+        elif t[0] == "GO":
+            a = op.index("|")
+            b = op.index("|", a + 1)
+            pos = op[a + 1:b].strip()[len("position "):]
+            go = op[b + 1:].strip()[len("go "):]
+            mode = {"tbstop": "stop_after_info", "stop": "stop"}.get(t[1], "wait")
+            tb = tb or t[1] == "tbstop"
+            prior.append({"k": "go", "pos": pos, "go": go, "mode": mode, "wait": int(t[2]) if mode == "stop" else 0})
+        elif t[0] == "NEXTGEN":
+            prior.append({"k": "go", "pos": "startpos", "go": "depth 1", "mode": "wait", "wait": 0})
+        elif t[0] in ("INS", "PRB", "HS", "HF", "KA", "EV") and not generic:
+            generic = True
+            prior.append({"k": "go", "pos": S.pos_cmd(rng.choice(positions)), "go": "depth 4", "mode": "wait", "wait": 0})
+    # the session itself ends with Clear Hash: drop trailing clears of the op sequence
+    while prior and prior[-1]["k"] == "clear":
+        prior.pop()
+    return {"hash": hash_mb, "tb": tb, "prior": prior, "ops": ops}
+
+
+def end_to_end(ctx, exe, positions, variant, directed=None):
     """Returns list of findings: dicts(kind='unexpected'|KEY, replay=...)."""
-    plan = make_jobs(ctx, positions, variant)
+    plan = make_jobs(ctx, positions, variant, directed=directed)
     findings = []
     t0 = time.time()
 
@@ -509,6 +574,10 @@ def end_to_end(ctx, exe, positions, variant):
         i, job = job_i
         try:
             pa, pb, pb2 = run_pair(exe, job["a"], job["b"], with_b2=(i % 4 == 0), search_timeout=ctx.scale(300, 1200))
+            if job["flavour"] == "tablebase-pressure" and job["base"].get("Hash") == "8":
+                # is the probe (still) sensitive to the table size?  fresh engine with 196608 entries
+                b3 = [dict(st, value="3") if st["k"] == "opt" and st["name"] == "Hash" else st for st in job["b"][:-2]]
+                job["size_sensitive"] = S.first_diff(S.run_session(exe, b3, ctx.scale(300, 1200))[0], pb[0]) is not None
         except S.EngineError as ex:
             return i, "error", str(ex)
         return i, "ok", (pa, pb, pb2)
@@ -526,6 +595,8 @@ def end_to_end(ctx, exe, positions, variant):
         pa, pb, pb2 = res
         ctx.evaluated()
         ctx.count("pairs_flavour_" + job["flavour"])
+        if "size_sensitive" in job:
+            ctx.count("pressure_probe_sensitive_to_table_size" if job["size_sensitive"] else "pressure_probe_NOT_sensitive_to_table_size")
         ctx.count("pairs_prior_searches_mod16_%d" % (job["tr"][0]["n_prior"] % 16))
         ctx.count("probe_generation_%d" % job["tr"][0]["probe_generation"])
         nsteps = len(job["prior"])
@@ -582,6 +653,30 @@ def end_to_end(ctx, exe, positions, variant):
         reported.append(rec)
         ctx.count("differences_attributed_" + key)
     return plan, reported, unexpected
+
+
+def report_unexpected(ctx, exe, plan, unexpected, variant, derived_from=None):
+    for rec in unexpected[:3]:
+        job = plan[rec["job"]]
+        replay = {"first_difference": rec["first_diff"], "which_probe": rec["which"], "note": rec.get("note"),
+                  "session_after_clear_hash": S.dumps(job["a"]), "fresh_session": S.dumps(job["b"]), "track": rec.get("track"),
+                  "variant": variant}
+        if derived_from is not None:
+            replay["derived_from_correspondence_disagreement"] = derived_from
+        key = "session:" + str(abs(hash(json.dumps(job["a"], sort_keys=True))) % 10**10)
+        if rec["which"] in ("A1", "A2"):
+            try:
+                fresh = S.run_session(exe, job["b"][:-2])[0]
+                small, nruns = minimise_prior(exe, job["base"], job["prior"], job["pp"], job["pgo"], fresh, budget_runs=ctx.scale(40, 150))
+                replay["minimised_prior"] = S.dumps(small)
+                replay["minimisation_runs"] = nruns
+                a2, b2 = S.assemble(job["base"], small, job["pp"], job["pgo"])
+                replay["minimised_session"] = S.dumps(a2[:-2])
+                key = "prior:" + ";".join("%s" % (st["k"] if st["k"] != "opt" else "opt-" + st["name"]) for st in small)[:200]
+            except S.EngineError:
+                pass
+        ctx.violation("output of the probe search after Clear Hash (%s) differs from a fresh engine for a reason other than the known findings"
+                      % rec["which"], replay, key=key)
 
 
 # =============================================================================================
@@ -745,25 +840,7 @@ def run(ctx):
             replay["coq_witness_session"] = rec["witness"]
         ctx.violation(what.get(key, key), replay, key=key)
     # differences outside every known-finding class: the property fails for another reason
-    for rec in unexpected[:3]:
-        job = plan[rec["job"]]
-        replay = {"first_difference": rec["first_diff"], "which_probe": rec["which"], "note": rec.get("note"),
-                  "session_after_clear_hash": S.dumps(job["a"]), "fresh_session": S.dumps(job["b"]), "track": rec.get("track"),
-                  "variant": variant}
-        key = "session:" + str(abs(hash(json.dumps(job["a"], sort_keys=True))) % 10**10)
-        if rec["which"] in ("A1", "A2"):
-            try:
-                fresh = S.run_session(exe, job["b"][:-2])[0]
-                small, nruns = minimise_prior(exe, job["base"], job["prior"], job["pp"], job["pgo"], fresh, budget_runs=ctx.scale(40, 150))
-                replay["minimised_prior"] = S.dumps(small)
-                replay["minimisation_runs"] = nruns
-                a2, b2 = S.assemble(job["base"], small, job["pp"], job["pgo"])
-                replay["minimised_session"] = S.dumps(a2[:-2])
-                key = "prior:" + ";".join("%s" % (st["k"] if st["k"] != "opt" else "opt-" + st["name"]) for st in small)[:200]
-            except S.EngineError:
-                pass
-        ctx.violation("output of the probe search after Clear Hash (%s) differs from a fresh engine for a reason other than the known findings"
-                      % rec["which"], replay, key=key)
+    report_unexpected(ctx, exe, plan, unexpected, variant)
     ctx.notes["unexpected_differences"] = len(unexpected)
     if unexpected:
         return
@@ -777,6 +854,17 @@ def run(ctx):
             bad, l1, l2 = run_ops(har, drv, variant, [small], timeout=120)
             replay["disagreement"] = {"ops": small, "original_len": len(ops), "harness": [x[2] for x in bad][:1], "model": [x[3] for x in bad][:1],
                                       "count": len(disagreements)}
+            # directed finder: drive the real engine through the operations of the shrunk sequence, then
+            # Clear Hash and probes large enough to put the table under replacement pressure
+            directed = derive_directed(small, rng, positions)
+            ctx.log("directed finder: session derived from the shrunk op sequence (%d prior steps, tablebase=%s, Hash=%s)" %
+                    (len(directed["prior"]), directed["tb"], directed["hash"]))
+            plan2, reported2, unexpected2 = end_to_end(ctx, exe, positions, variant, directed=directed)
+            ctx.count("directed_sessions", len(plan2))
+            if unexpected2:
+                report_unexpected(ctx, exe, plan2, unexpected2, variant, derived_from=replay["disagreement"])
+                ctx.notes["unexpected_differences"] = len(unexpected2)
+                return
         if crashes:
             replay["crash"] = [{"ops": o, "what": w, "details": d} for o, w, d in crashes[:3]]
         if not api_f5_as_model:
